@@ -999,6 +999,7 @@ Theorem deallocate_good : forall s addr len, Good s ->
 Proof.
   intros s addr len Hg Hl. unfold deallocate.
   destruct (negb (Z.land addr (blkmask s) =? 0)); [split; [exact Hg|split; [apply same_cfg_refl|left; reflexivity]]|].
+  destruct (fx_short (vr s) && (shr len (bpow s) <? 1)); [split; [exact Hg|split; [apply same_cfg_refl|left; reflexivity]]|].
   destruct (touches_meta s (shr addr (bpow s)) (shr len (bpow s))); [split; [exact Hg|split; [apply same_cfg_refl|left; reflexivity]]|].
   pose proof (blk_deallocate_good s _ _ Hg Hl) as H.
   destruct (blk_deallocate s (shr addr (bpow s)) (shr len (bpow s))) as [rc s'].
@@ -1071,7 +1072,7 @@ Theorem reopen_good : forall s st mm, len_z (bm s) = nbits s -> nbits s <= FSM_B
 Proof.
   intros s st mm Hlen Hu32 Hwf Hfx. unfold reopen.
   set (s0 := mkFsm (bm s) [] 0 0 (bmoff s) (bmlen s) (hdrlen s) (bpow s) (aunit s) (fsize s) (p_crzsum s) (p_crznum s)
-                   (p_crzsum s) (p_crznum s) st (mkVariant (fx_lfbk (vr s)) (fx_strict (vr s)) (fx_sync (vr s)) mm)).
+                   (p_crzsum s) (p_crznum s) st (mkVariant (fx_lfbk (vr s)) (fx_strict (vr s)) (fx_sync (vr s)) (fx_short (vr s)) mm)).
   destruct (load_fsm_spec s0 Hlen Hu32) as (F & S & M & L).
   pose proof (frame_same_cfg _ _ F) as (C1 & C2 & C3 & C4 & _). destruct F as (B1 & _).
   split; [|split].
@@ -1136,8 +1137,8 @@ Proof.
   apply all_range_spec; [lia|lia|lia|exact H5].
 Qed.
 
-Definition v_current : variant := mkVariant false false false false.
-Definition v_fixed : variant := mkVariant true true true false.
+Definition v_current : variant := mkVariant false false false false false.
+Definition v_fixed : variant := mkVariant true true true true false.
 Definition fresh (v : variant) (strict' : bool) : fsm := snd (open_new v 6 0 0 strict').
 (* six 4-block regions, then exactly the free tail (which is the cached extent), then two adjacent releases *)
 Definition lfbk_witness : list op :=
@@ -1206,6 +1207,7 @@ Theorem deallocate_refuses : forall s addr len,
   fst (deallocate s addr len) <> 0 /\ snd (deallocate s addr len) = s.
 Proof.
   intros s addr len H. unfold deallocate. destruct (negb (Z.land addr (blkmask s) =? 0)); [split; [discriminate|reflexivity]|].
+  destruct (fx_short (vr s) && (shr len (bpow s) <? 1)); [split; [discriminate|reflexivity]|].
   destruct H as [H|H]; [discriminate|]. rewrite H. split; [discriminate|reflexivity].
 Qed.
 
@@ -1254,7 +1256,7 @@ Theorem reopen_same : forall s st mm, len_z (bm s) = nbits s -> nbits s <= FSM_B
 Proof.
   intros s st mm Hlen Hu32 Hwf Hfx. split; [apply reopen_good; assumption|]. unfold reopen.
   set (s0 := mkFsm (bm s) [] 0 0 (bmoff s) (bmlen s) (hdrlen s) (bpow s) (aunit s) (fsize s) (p_crzsum s) (p_crznum s)
-                   (p_crzsum s) (p_crznum s) st (mkVariant (fx_lfbk (vr s)) (fx_strict (vr s)) (fx_sync (vr s)) mm)).
+                   (p_crzsum s) (p_crznum s) st (mkVariant (fx_lfbk (vr s)) (fx_strict (vr s)) (fx_sync (vr s)) (fx_short (vr s)) mm)).
   destruct (load_fsm_spec s0 Hlen Hu32) as (F & _ & M & _). destruct F as (B1 & B2 & B3 & B4 & B5 & _).
   split; [exact B1|]. split; [exact B2|]. split; [exact B3|]. split; [exact B4|]. split; [exact B5|]. exact M.
 Qed.
@@ -1271,4 +1273,285 @@ Proof.
   intros s s' off olen i (I & C & A1 & A2 & A3 & A4 & A5) Hi. rewrite A5.
   pose proof (inv_len s' I) as Hl. rewrite A5, set_range_length in Hl. destruct C as (_ & _ & _ & C4 & _).
   unfold nbits in *. rewrite C4 in Hl. apply getb_set_range; lia.
+Qed.
+
+(* a release of less than one block is refused (code after fixes/fsm-dealloc-short.diff) ... *)
+Theorem short_release_refused : forall s addr len, fx_short (vr s) = true -> shr len (bpow s) < 1 ->
+  fst (deallocate s addr len) <> 0 /\ snd (deallocate s addr len) = s.
+Proof.
+  intros s addr len Hfx Hl. unfold deallocate. destruct (negb (Z.land addr (blkmask s) =? 0)); [split; [discriminate|reflexivity]|].
+  rewrite Hfx. replace (shr len (bpow s) <? 1) with true by lia. split; [discriminate|reflexivity].
+Qed.
+(* ... and accepted by the code as it is, leaving an empty extent in the tree *)
+Theorem short_release_refused_refuted : exists s addr len, shr len (bpow s) < 1 /\
+  fst (deallocate s addr len) = 0 /\ In (0, shr addr (bpow s)) (tree (snd (deallocate s addr len))).
+Proof.
+  exists (run (fresh v_current false) [OAlloc 256 0 11 false; OAlloc 256 0 11 false]), 384, 10.
+  split; [dec_goal|]. split; [vm_compute; reflexivity|vm_compute; left; reflexivity].
+Qed.
+
+(* ================================================================ bitmap relocation *)
+Lemma ranges_overlap_zero : forall s1 e1 s2 e2, IW_RANGES_OVERLAP s1 e1 s2 e2 = 0 -> e1 <= s2 \/ e2 <= s1.
+Proof.
+  intros s1 e1 s2 e2. unfold IW_RANGES_OVERLAP.
+  destruct (Z.gtb e1 s2) eqn:A; destruct (Z.leb e1 e2) eqn:B; destruct (Z.geb s1 s2) eqn:C; destruct (Z.ltb s1 e2) eqn:D;
+    destruct (Z.leb s1 s2) eqn:E; destruct (Z.geb e1 e2) eqn:F; simpl; intros H; try discriminate;
+    rewrite ?Z.gtb_lt, ?Z.leb_le, ?Z.geb_le, ?Z.ltb_lt, ?Z.leb_gt, ?Z.ltb_ge in *;
+    repeat match goal with H : (_ >? _) = false |- _ => rewrite Z.gtb_ltb in H; apply Z.ltb_ge in H
+                      | H : (_ >=? _) = false |- _ => rewrite Z.geb_leb in H; apply Z.leb_gt in H end; lia.
+Qed.
+
+Lemma set_bit_status_nochk : forall s off len v, off + len <= nbits s ->
+  set_bit_status s off len v false false = (0, set_bm s (set_range (bm s) off len v)).
+Proof. intros s off len v H. unfold set_bit_status. replace (nbits s <? off + len) with false by lia. reflexivity. Qed.
+
+Lemma shr_add_le : forall a b n, 0 <= n -> 0 <= a -> 0 <= b -> shr a n + shr b n <= shr (a + b) n.
+Proof.
+  intros a b n Hn Ha Hb. rewrite !shr_div by lia. assert (Hp : 0 < 2 ^ n) by (apply Z.pow_pos_nonneg; lia).
+  pose proof (Z.div_mod a (2 ^ n) ltac:(lia)). pose proof (Z.div_mod b (2 ^ n) ltac:(lia)).
+  pose proof (Z.mod_pos_bound a (2 ^ n) Hp). pose proof (Z.mod_pos_bound b (2 ^ n) Hp).
+  apply Z.div_le_lower_bound; [lia|]. nia.
+Qed.
+
+Definition reloc_result (s : fsm) (nbmoff nbmlen : Z) : list bool :=
+  set_range (set_range (bm s ++ repeat false (Z.to_nat (8 * (nbmlen - bmlen s))))
+                       (shr nbmoff (bpow s)) (shr nbmlen (bpow s)) true)
+            (shr (bmoff s) (bpow s)) (shr (bmlen s) (bpow s)) false.
+
+Definition init_outcome (s : fsm) (nbmoff nbmlen : Z) (r : Z * fsm) : Prop :=
+  let '(rc, s') := r in
+  (rc <> 0 /\ (s' = s \/ s' = ensure_size s (nbmoff + nbmlen))) \/
+  (rc = 0 /\ Inv s' /\ bmoff s' = nbmoff /\ bmlen s' = nbmlen /\ vr s' = vr s /\ bpow s' = bpow s /\ aunit s' = aunit s /\
+   hdrlen s' = hdrlen s /\ strict s' = strict s /\ bm s' = reloc_result s nbmoff nbmlen).
+
+(* _fsm_init_lw moving an existing bitmap: reload, then release of the old bitmap area *)
+Theorem init_lw_reloc : forall s nbmoff nbmlen, Inv s -> fx_lfbk (vr s) = true -> 0 <= bpow s ->
+  bmlen s <> 0 -> 0 <= nbmoff -> 0 <= bmoff s -> 0 <= bmlen s ->
+  let ob := shr (bmoff s) (bpow s) in let ol := shr (bmlen s) (bpow s) in
+  let nb := shr nbmoff (bpow s) in let nl := shr nbmlen (bpow s) in
+  0 < ol -> ob + ol <= nbits s ->
+  (forall i, ob <= i < ob + ol -> getb (bm s) i = true) ->
+  (forall i, nb <= i < nb + nl -> i < nbits s -> getb (bm s) i = true) ->
+  nbmlen * 8 <= FSM_BKEY_MAX ->
+  init_outcome s nbmoff nbmlen (init_lw s nbmoff nbmlen).
+Proof.
+  intros s nbmoff nbmlen Hi Hfx Hbp Hbl Hno Hbo Hblen ob ol nb nl Hol Hoin Hold Hnew Hmax.
+  pose proof (inv_len s Hi) as Hlen. unfold init_lw.
+  assert (Ez : (bmlen s =? 0) = false) by (apply Z.eqb_neq; exact Hbl). rewrite !Ez. simpl negb.
+  destruct (negb (nbmlen mod pow2 (bpow s) =? 0) || negb (nbmoff mod pow2 (bpow s) =? 0) || negb (nbmoff mod aunit s =? 0));
+    [left; split; [discriminate|left; reflexivity]|].
+  destruct (nbmlen <? bmlen s) eqn:E2; [left; split; [discriminate|left; reflexivity]|]. apply Z.ltb_ge in E2.
+  destruct (nbmlen * 8 <? shr (nbmoff + nbmlen) (bpow s) + 1) eqn:E3; [left; split; [discriminate|left; reflexivity]|]. apply Z.ltb_ge in E3.
+  set (s0 := ensure_size s (nbmoff + nbmlen)).
+  simpl andb. destruct (negb (IW_RANGES_OVERLAP (bmoff s) (bmoff s + bmlen s) nbmoff (nbmoff + nbmlen) =? 0)) eqn:Eov;
+    [left; split; [discriminate|right; reflexivity]|].
+  apply negb_false_iff in Eov. apply Z.eqb_eq in Eov. apply ranges_overlap_zero in Eov.
+  set (nbm := bm s ++ repeat false (Z.to_nat (8 * (nbmlen - bmlen s)))).
+  assert (Hnbm : len_z nbm = nbmlen * 8).
+  { unfold nbm. rewrite len_z_app, len_z_repeat, Hlen. unfold nbits. lia. }
+  assert (Hs0 : bm s0 = bm s /\ same_cfg s s0) by apply ensure_fields. destruct Hs0 as [_ C0].
+  set (s1 := set_bmloc (set_bm s0 nbm) nbmoff nbmlen).
+  assert (Hnb1 : nbits s1 = nbmlen * 8) by reflexivity.
+  assert (Hbp1 : bpow s1 = bpow s) by (destruct C0 as (_ & C & _); exact C).
+  assert (Hnn : nb + nl <= nbmlen * 8).
+  { pose proof (shr_add_le nbmoff nbmlen (bpow s) Hbp Hno ltac:(lia)). unfold nb, nl. lia. }
+  assert (Hnl0 : 0 <= nl) by (unfold nl; rewrite shr_div by lia; apply Z.div_pos; [lia|apply Z.pow_pos_nonneg; lia]).
+  assert (Hnb0 : 0 <= nb) by (unfold nb; rewrite shr_div by lia; apply Z.div_pos; [lia|apply Z.pow_pos_nonneg; lia]).
+  assert (Hob0 : 0 <= ob) by (unfold ob; rewrite shr_div by lia; apply Z.div_pos; [lia|apply Z.pow_pos_nonneg; lia]).
+  fold nb nl. rewrite (set_bit_status_nochk s1 nb nl true) by (rewrite Hnb1; lia).
+  replace (negb (0 =? 0)) with false by reflexivity. cbv iota.
+  set (bm2 := set_range nbm nb nl true). simpl bm.
+  set (s3 := set_bm s1 bm2).
+  assert (Hl2 : len_z bm2 = nbmlen * 8) by (unfold bm2; rewrite set_range_length; exact Hnbm).
+  destruct (load_fsm_spec s3 ltac:(exact Hl2) ltac:(unfold nbits; simpl; lia)) as (F & S & M & L).
+  (* bits of the intermediate bitmap *)
+  assert (Hb2 : forall i, 0 <= i < nbits s -> getb bm2 i = if (nb <=? i) && (i <? nb + nl) then true else getb (bm s) i).
+  { intros i Hi2. unfold bm2. rewrite getb_set_range by (rewrite ?Hnbm; unfold nbits in *; lia).
+    destruct ((nb <=? i) && (i <? nb + nl)); [reflexivity|]. unfold nbm. apply getb_app_l. rewrite Hlen. exact Hi2. }
+  (* the cache survives the reload as a tree entry *)
+  assert (HLF : LF (load_fsm s3)).
+  { apply L. simpl. destruct (Z.eq_dec (lfbkoff s0) 0) as [Hz|Hnz]; [left; exact Hz|right].
+    assert (E1 : lfbkoff s0 = lfbkoff s) by (unfold s0, ensure_size; destruct (fsize s >=? nbmoff + nbmlen); reflexivity).
+    assert (E2' : lfbklen s0 = lfbklen s) by (unfold s0, ensure_size; destruct (fsize s >=? nbmoff + nbmlen); reflexivity).
+    rewrite E1, E2' in *. destruct (inv_ts s Hi) as [_ Hlf]. specialize (Hlf Hnz). apply (inv_runs s Hi) in Hlf.
+    destruct Hlf as (R1 & R2 & R3 & R4 & _). rewrite Hlen in R3.
+    exists (lfbkoff s + lfbklen s - 1). split; [lia|].
+    rewrite wbit_in by (rewrite Hl2; unfold nbits in *; lia). rewrite Hb2 by lia.
+    destruct ((nb <=? lfbkoff s + lfbklen s - 1) && (lfbkoff s + lfbklen s - 1 <? nb + nl)) eqn:Ein; [|apply R4; lia].
+    apply andb_true_iff in Ein. destruct Ein as [A B]. apply Z.leb_le in A. apply Z.ltb_lt in B.
+    specialize (R4 (lfbkoff s + lfbklen s - 1) ltac:(lia)).
+    rewrite Hnew in R4 by lia. discriminate. }
+  set (s4 := write_meta (load_fsm s3)).
+  pose proof (frame_same_cfg _ _ F) as C3. destruct F as (B1 & B2 & B3 & _).
+  assert (Hi4 : Inv s4).
+  { constructor.
+    - simpl. rewrite B1. unfold nbits. simpl. rewrite B3. exact Hl2.
+    - unfold nbits. simpl. rewrite B3. simpl. lia.
+    - split; [exact S|exact HLF].
+    - intros o n. simpl. rewrite B1. apply M. }
+  assert (Hcfg4 : vr s4 = vr s /\ bpow s4 = bpow s /\ aunit s4 = aunit s /\ hdrlen s4 = hdrlen s /\ strict s4 = strict s /\
+                  bmoff s4 = nbmoff /\ bmlen s4 = nbmlen /\ bm s4 = bm2).
+  { destruct C3 as (D1 & D2 & D3 & D4 & D5 & D6 & D7). destruct C0 as (G1 & G2 & G3 & G4 & G5 & G6 & G7).
+    simpl in *. repeat split; congruence. }
+  destruct Hcfg4 as (K1 & K2 & K3 & K4 & K5 & K6 & K7 & K8).
+  assert (Hnb4 : nbits s4 = nbmlen * 8) by (unfold nbits; rewrite K7; reflexivity).
+  cbv beta iota zeta. fold ob ol.
+  change (write_meta (load_fsm (set_bm s1 (set_range nbm nb nl true)))) with s4.
+  assert (Hlive : forall i, ob <= i < ob + ol -> getb (bm s4) i = true).
+  { intros i Hi2. rewrite K8. rewrite Hb2 by lia. destruct ((nb <=? i) && (i <? nb + nl)); [reflexivity|apply Hold; exact Hi2]. }
+  rewrite (blk_deallocate_nf s4 ob ol Hob0 Hol ltac:(rewrite Hnb4; unfold nbits in *; lia) (inv_len s4 Hi4) Hlive).
+  destruct (dealloc_nf_inv s4 ob ol Hi4 ltac:(rewrite K1; exact Hfx) Hob0 Hol ltac:(rewrite Hnb4; unfold nbits in *; lia) Hlive) as (I5 & B5 & C5).
+  right. split; [reflexivity|]. split; [exact I5|]. destruct C5 as (Q1 & Q2 & Q3 & Q4 & Q5 & Q6 & Q7).
+  split; [congruence|]. split; [congruence|]. split; [congruence|]. split; [congruence|]. split; [congruence|].
+  split; [congruence|]. split; [congruence|]. rewrite B5, K8. reflexivity.
+Qed.
+
+(* the allocator's own bitmap area is inside the bitmap and marked allocated *)
+Definition BmArea (s : fsm) : Prop :=
+  0 <= bmoff s /\ 0 <= bmlen s /\ 0 < shr (bmlen s) (bpow s) /\ shr (bmoff s) (bpow s) + shr (bmlen s) (bpow s) <= nbits s /\
+  forall i, shr (bmoff s) (bpow s) <= i < shr (bmoff s) (bpow s) + shr (bmlen s) (bpow s) -> getb (bm s) i = true.
+
+Lemma shr_shl : forall x n, 0 <= n -> shr (shl x n) n = x.
+Proof. intros x n Hn. rewrite shr_div, shl_mul by lia. apply Z.div_mul. apply Z.pow_nonzero; lia. Qed.
+
+Lemma shr_mono : forall a b n, 0 <= n -> a <= b -> shr a n <= shr b n.
+Proof. intros a b n Hn H. rewrite !shr_div by lia. apply Z.div_le_mono; [apply Z.pow_pos_nonneg; lia|exact H]. Qed.
+
+Lemma bmarea_after_alloc : forall s s' off olen, allocated_from s s' off olen -> BmArea s -> BmArea s'.
+Proof.
+  intros s s' off olen Ha (B1 & B2 & B3 & B4 & B5). pose proof Ha as (I & C & A1 & A2 & A3 & A4 & A5).
+  destruct C as (_ & C2 & _ & C4 & C5 & _). unfold BmArea. rewrite C2, C4, C5. unfold nbits in *. rewrite C4.
+  split; [exact B1|]. split; [exact B2|]. split; [exact B3|]. split; [exact B4|]. intros i Hi.
+  assert (0 <= shr (bmoff s) (bpow s)).
+  { unfold shr. apply Z.shiftr_nonneg. exact B1. }
+  rewrite (alloc_flips_only_own s s' off olen i Ha) by (unfold nbits; lia).
+  destruct ((off <=? i) && (i <? off + olen)); [reflexivity|apply B5; exact Hi].
+Qed.
+
+Definition resize_outcome (s : fsm) (r : Z * fsm) : Prop :=
+  let '(rc, s') := r in
+  (rc = 0 /\ s' = s) \/ (rc <> 0 /\ Inv s' /\ BmArea s' /\ same_cfg s s') \/
+  (rc = 0 /\ Inv s' /\ BmArea s' /\ bmlen s < bmlen s' /\ vr s' = vr s /\ bpow s' = bpow s /\ aunit s' = aunit s /\
+   hdrlen s' = hdrlen s /\ strict s' = strict s).
+
+(* _fsm_resize_fsm_bitmap_lw: the new bitmap is carved out of the free space it describes (or put behind the old coverage),
+   the tree is reloaded and the old area released: the invariant holds again *)
+Theorem resize_keeps_inv : forall s size, Inv s -> WF s -> fx_lfbk (vr s) = true -> BmArea s ->
+  0 <= size < 2 ^ 62 -> IW_ROUNDUP size (aunit s) * 8 <= FSM_BKEY_MAX ->
+  resize_outcome s (resize_fsm_bitmap s size).
+Proof.
+  intros s size Hi Hwf Hfx Hba Hsz Hmax. pose proof Hba as (B1 & B2 & B3 & B4 & B5).
+  pose proof (wf_bpow_lt s Hwf) as Hb. unfold resize_fsm_bitmap.
+  destruct (bmlen s >=? size) eqn:E1; [left; split; reflexivity|]. rewrite Z.geb_leb in E1. apply Z.leb_gt in E1.
+  destruct Hwf as [Hbp (j & Hj & Hjr)].
+  assert (Hp31 : 2 ^ j < 2 ^ 32) by (apply Z.pow_lt_mono_r; lia).
+  assert (Hpj : 0 < 2 ^ j) by (apply Z.pow_pos_nonneg; lia).
+  destruct (roundup_pow2_props size j ltac:(lia) ltac:(lia) ltac:(change (2 ^ 64) with (2 ^ 62 * 4); change (2 ^ 32) with 4294967296 in Hp31; lia)) as [Hr Hm].
+  rewrite Hj in *. set (nbmlen := IW_ROUNDUP size (2 ^ j)) in *.
+  assert (Hbl0 : bmlen s <> 0).
+  { intros He. rewrite He in B3. unfold shr in B3. rewrite Z.shiftr_0_l in B3. lia. }
+  assert (Hq : 2 ^ j = 2 ^ (j - bpow s) * 2 ^ bpow s) by (rewrite <- Z.pow_add_r by lia; f_equal; lia).
+  assert (Hpb : 0 < 2 ^ bpow s) by (apply Z.pow_pos_nonneg; lia).
+  assert (Hnlb : 0 < shr nbmlen (bpow s)).
+  { rewrite shr_div by lia. apply Z.div_str_pos. split; [lia|].
+    apply Z.mod_divide in Hm; [|lia]. destruct Hm as [q Hq2]. assert (0 < q) by nia.
+    assert (0 < 2 ^ (j - bpow s)) by (apply Z.pow_pos_nonneg; lia). nia. }
+  assert (Hwf' : WF s) by (constructor; [exact Hbp|exists j; split; [exact Hj|exact Hjr]]).
+  pose proof (blk_allocate_aligned_spec s (shr nbmlen (bpow s)) U64MAX Hi Hwf' Hnlb) as Hal.
+  destruct (blk_allocate_aligned s (shr nbmlen (bpow s)) U64MAX) as [[[rc s1] off] sp].
+  destruct Hal as [[-> ->]|(-> & -> & Ha & _ & _)].
+  - (* nothing free: behind the area the old bitmap covers *)
+    replace (IWFS_ERROR_NO_FREE_SPACE =? 0) with false by reflexivity. rewrite Z.eqb_refl.
+    rewrite pow2_shl by lia.
+    set (X := bmlen s * 2 ^ bpow s * 8).
+    assert (HX : 0 <= X) by (unfold X; nia).
+    pose proof (inv_u32 s Hi) as Hu32. unfold nbits in Hu32.
+    assert (HXb : X + 2 ^ j < 2 ^ 64).
+    { unfold X. assert (2 ^ bpow s <= 2 ^ 31) by (apply Z.pow_le_mono_r; lia).
+      change FSM_BKEY_MAX with (2 ^ 32 - 1) in Hu32. change (2 ^ 64) with (2 ^ 32 * 2 ^ 32).
+      change (2 ^ 32) with 4294967296 in *. change (2 ^ 31) with 2147483648 in *. nia. }
+    destruct (roundup_pow2_props X j ltac:(lia) HX HXb) as [HrX _].
+    set (nbmoff := IW_ROUNDUP X (2 ^ j)) in *.
+    assert (Hnbge : nbits s <= shr nbmoff (bpow s)).
+    { apply Z.le_trans with (shr X (bpow s)); [|apply shr_mono; lia].
+      rewrite shr_div by lia. unfold X, nbits. replace (bmlen s * 2 ^ bpow s * 8) with (bmlen s * 8 * 2 ^ bpow s) by ring.
+      rewrite Z.div_mul by lia. lia. }
+    pose proof (init_lw_reloc s nbmoff nbmlen Hi Hfx Hbp Hbl0 ltac:(lia) B1 B2 B3 B4 B5
+                  ltac:(intros i Hi1 Hi2; lia) Hmax) as Ho.
+    destruct (init_lw s nbmoff nbmlen) as [rc s'] eqn:Ei. unfold init_outcome in Ho.
+    destruct Ho as [(Hrc & [->| ->])|(-> & I' & O1 & O2 & O3 & O4 & O5 & O6 & O7 & O8)].
+    + right; left. split; [exact Hrc|]. split; [exact Hi|]. split; [exact Hba|apply same_cfg_refl].
+    + right; left. split; [exact Hrc|]. destruct (ensure_fields s (nbmoff + nbmlen)) as [E C].
+      split; [apply Inv_ensure_size; exact Hi|]. split; [|exact C].
+      destruct C as (_ & C2 & _ & C4 & C5 & _). unfold BmArea, nbits. rewrite E, C2, C4, C5. exact Hba.
+    + right; right. split; [reflexivity|]. split; [exact I'|]. split; [|rewrite O2; repeat split; try assumption; lia].
+      (* the new area is marked and inside *)
+      unfold BmArea. rewrite O1, O2, O4, O8. unfold nbits. rewrite O2.
+      assert (Hin : shr nbmoff (bpow s) + shr nbmlen (bpow s) <= nbmlen * 8).
+      { pose proof (inv_len s' I') as Hl. rewrite O8 in Hl. unfold reloc_result in Hl. rewrite !set_range_length, len_z_app, len_z_repeat in Hl.
+        unfold nbits in Hl. rewrite O2 in Hl.
+        (* from the check inside init_lw: re-derive through the length of the result is not enough, use the bound on blocks *)
+        pose proof (shr_add_le nbmoff nbmlen (bpow s) Hbp ltac:(lia) ltac:(lia)) as Hs.
+        (* init_lw succeeded, hence nbmlen*8 >= shr (nbmoff+nbmlen) + 1 *)
+        unfold init_lw in Ei.
+        destruct (negb (nbmlen mod pow2 (bpow s) =? 0) || negb (nbmoff mod pow2 (bpow s) =? 0) || negb (nbmoff mod aunit s =? 0)); [discriminate|].
+        destruct (nbmlen <? bmlen s); [discriminate|].
+        destruct (nbmlen * 8 <? shr (nbmoff + nbmlen) (bpow s) + 1) eqn:E3; [discriminate|]. apply Z.ltb_ge in E3. lia. }
+      split; [lia|]. split; [lia|]. split; [exact Hnlb|]. split; [exact Hin|].
+      intros i Hi1. unfold reloc_result.
+      rewrite getb_set_range; [| unfold shr; apply Z.shiftr_nonneg; exact B1 |
+        rewrite set_range_length, len_z_app, len_z_repeat, (inv_len s Hi); unfold nbits in *; lia].
+      replace ((shr (bmoff s) (bpow s) <=? i) && (i <? shr (bmoff s) (bpow s) + shr (bmlen s) (bpow s))) with false
+        by (symmetry; apply andb_false_iff; right; apply Z.ltb_ge; unfold nbits in *; lia).
+      rewrite getb_set_range; [| unfold nbits in *; lia | rewrite len_z_app, len_z_repeat, (inv_len s Hi); unfold nbits in *; lia].
+      replace ((shr nbmoff (bpow s) <=? i) && (i <? shr nbmoff (bpow s) + shr nbmlen (bpow s))) with true
+        by (symmetry; apply andb_true_iff; split; [apply Z.leb_le|apply Z.ltb_lt]; lia).
+      reflexivity.
+  - (* carved out of the free space *)
+    replace (0 =? 0) with true by reflexivity.
+    pose proof Ha as (I1 & C1 & A1 & A2 & A3 & A4 & A5).
+    pose proof (bmarea_after_alloc s s1 off (shr nbmlen (bpow s)) Ha Hba) as Hba1.
+    pose proof C1 as (V1 & V2 & V3 & V4 & V5 & V6 & V7).
+    assert (Hshr : shr (shl off (bpow s)) (bpow s1) = off) by (rewrite V2; apply shr_shl; lia).
+    pose proof Hba1 as (D1 & D2 & D3 & D4 & D5).
+    assert (Hsp : shl (shr nbmlen (bpow s)) (bpow s) = nbmlen).
+    { rewrite shl_mul, shr_div by lia. apply Z.mod_divide in Hm; [|lia]. destruct Hm as [q Hq2].
+      rewrite Hq2. rewrite Hq. replace (q * (2 ^ (j - bpow s) * 2 ^ bpow s)) with (q * 2 ^ (j - bpow s) * 2 ^ bpow s) by ring.
+      rewrite Z.div_mul by lia. reflexivity. }
+    rewrite Hsp.
+    assert (Hnew : forall i, shr (shl off (bpow s)) (bpow s1) <= i < shr (shl off (bpow s)) (bpow s1) + shr nbmlen (bpow s1) ->
+                   i < nbits s1 -> getb (bm s1) i = true).
+    { intros i Hi1 _. rewrite Hshr, V2 in Hi1. rewrite (alloc_flips_only_own s s1 off _ i Ha) by (unfold nbits in *; lia).
+      replace ((off <=? i) && (i <? off + shr nbmlen (bpow s))) with true; [reflexivity|].
+      symmetry. apply andb_true_iff. split; [apply Z.leb_le|apply Z.ltb_lt]; lia. }
+    pose proof (init_lw_reloc s1 (shl off (bpow s)) nbmlen I1 ltac:(rewrite V1; exact Hfx) ltac:(rewrite V2; exact Hbp)
+                  ltac:(rewrite V4; exact Hbl0) ltac:(rewrite shl_mul by lia; nia) D1 D2 D3 D4 D5 Hnew Hmax) as Ho.
+    destruct (init_lw s1 (shl off (bpow s)) nbmlen) as [rc s'] eqn:Ei. unfold init_outcome in Ho.
+    destruct Ho as [(Hrc & [->| ->])|(-> & I' & O1 & O2 & O3 & O4 & O5 & O6 & O7 & O8)].
+    + right; left. split; [exact Hrc|]. split; [exact I1|]. split; [exact Hba1|exact C1].
+    + right; left. split; [exact Hrc|]. destruct (ensure_fields s1 (shl off (bpow s) + nbmlen)) as [E C].
+      split; [apply Inv_ensure_size; exact I1|]. split; [|eapply same_cfg_trans; eassumption].
+      destruct C as (_ & C2 & _ & C4 & C5 & _). unfold BmArea, nbits. rewrite E, C2, C4, C5. exact Hba1.
+    + right; right. split; [reflexivity|]. split; [exact I'|].
+      split; [|rewrite O2; repeat split; try congruence; lia].
+      unfold BmArea. rewrite O1, O2, O4, O8. unfold nbits. rewrite O2. rewrite V2 in *. rewrite Hshr.
+      assert (Hin : off + shr nbmlen (bpow s) <= nbmlen * 8).
+      { unfold nbits in A3. lia. }
+      split; [rewrite shl_mul by lia; nia|]. split; [lia|]. split; [exact Hnlb|]. split; [exact Hin|].
+      intros i Hi1. unfold reloc_result. rewrite V2, V4, V5.
+      (* the old area and the freshly allocated one are disjoint: one was allocated, the other free, in s *)
+      assert (Hdis : ~ (shr (bmoff s) (bpow s) <= i < shr (bmoff s) (bpow s) + shr (bmlen s) (bpow s))).
+      { intros Hc. assert (getb (bm s) i = true) by (apply B5; exact Hc). rewrite A4 in H by lia. discriminate. }
+      assert (Hl1 : len_z (bm s1) = bmlen s * 8) by (rewrite (inv_len s1 I1); unfold nbits; rewrite V4; reflexivity).
+      rewrite getb_set_range; [| unfold shr; apply Z.shiftr_nonneg; exact B1 |
+        rewrite set_range_length, len_z_app, len_z_repeat, Hl1; lia].
+      replace ((shr (bmoff s) (bpow s) <=? i) && (i <? shr (bmoff s) (bpow s) + shr (bmlen s) (bpow s))) with false
+        by (symmetry; destruct (shr (bmoff s) (bpow s) <=? i) eqn:Q1; [|reflexivity];
+            destruct (i <? shr (bmoff s) (bpow s) + shr (bmlen s) (bpow s)) eqn:Q2; [|reflexivity];
+            apply Z.leb_le in Q1; apply Z.ltb_lt in Q2; exfalso; apply Hdis; lia).
+      rewrite Hshr.
+      rewrite getb_set_range; [| lia | rewrite len_z_app, len_z_repeat, Hl1; lia].
+      replace ((off <=? i) && (i <? off + shr nbmlen (bpow s))) with true
+        by (symmetry; apply andb_true_iff; split; [apply Z.leb_le|apply Z.ltb_lt]; lia).
+      reflexivity.
 Qed.
